@@ -100,6 +100,24 @@ def failing_link(d, rng, kind):
     return sub, args, env
 
 
+GC_EVENTS = {"ScopeBegin", "ActBegin", "ActEnd", "ActDec", "DelayPop", "Send", "SendLocal", "Err", "Item", "Fail",
+             "SlotPark", "SlotSwap", "TaskStart", "ScopeEnd"}
+
+
+def gc_only(trace_path):
+    """The hooks of other protocols (string merging, life-cycle phases) write to the same file:
+    keep the traversal's events only."""
+    out = trace_path.with_suffix(".gc.ndjson")
+    with open(out, "w") as f:
+        for line in open(trace_path):
+            try:
+                if json.loads(line)["ev"] in GC_EVENTS:
+                    f.write(line)
+            except (ValueError, KeyError):
+                raise ToolError(f"malformed trace line: {line[:100]}")
+    return out
+
+
 def validate(trace_path, name):
     return tlc.validate_trace("GcProtoTrace", "mc/GcProtoTrace.cfg", trace_path, timeout=300, name=name)
 
@@ -127,7 +145,7 @@ def run(ctx):
                 raise ToolError(f"generated link failed unexpectedly: {r}")
             if not tr.exists():
                 raise ToolError("no trace written (hooks not compiled in?)")
-            jobs.append((name, sub, tr, args, env, "ok"))
+            jobs.append((name, sub, gc_only(tr), args, env, "ok"))
         for kind in range(2 if ctx.quick else 8):
             sub, args, env = failing_link(d, rng, kind)
             tr = sub / "trace.ndjson"
@@ -140,7 +158,7 @@ def run(ctx):
             if r.rc == 0:
                 raise ToolError("link with undefined symbols unexpectedly succeeded")
             if tr.exists() and '"ScopeEnd"' in tr.read_text():
-                jobs.append((f"fail{kind}", sub, tr, args, env, "fail"))
+                jobs.append((f"fail{kind}", sub, gc_only(tr), args, env, "fail"))
 
         def job(j):
             name, sub, tr, args, env, kind = j
